@@ -11,7 +11,7 @@ use super::{
     TSetIdentifier, TStructIdentifier, TType, ThriftException, ZERO_COPY_THRESHOLD,
     error::ProtocolExceptionKind,
     new_protocol_exception,
-    rw_ext::{IOError, ReadExt, WriteExt},
+    rw_ext::{IOError, ReadExt, WriteExt, read_exact_to_vec},
 };
 
 static VERSION_1: u32 = 0x80010000;
@@ -870,10 +870,14 @@ where
 
     #[inline]
     async fn read_bytes_vec(&mut self) -> Result<Vec<u8>, ThriftException> {
-        let len = self.reader.read_i32().await? as usize;
-        // FIXME: use maybe_uninit?
-        let mut v = vec![0; len];
-        self.reader.read_exact(&mut v).await?;
+        let len = self.reader.read_i32().await?;
+        if len < 0 {
+            return Err(new_protocol_exception(
+                ProtocolExceptionKind::NegativeSize,
+                format!("negative length {}", len),
+            ));
+        }
+        let v = read_exact_to_vec(&mut self.reader, len as usize).await?;
         Ok(v)
     }
 
@@ -886,10 +890,14 @@ where
 
     #[inline]
     async fn read_string(&mut self) -> Result<String, ThriftException> {
-        let len = self.reader.read_i32().await? as usize;
-        // FIXME: use maybe_uninit?
-        let mut v = vec![0; len];
-        self.reader.read_exact(&mut v).await?;
+        let len = self.reader.read_i32().await?;
+        if len < 0 {
+            return Err(new_protocol_exception(
+                ProtocolExceptionKind::NegativeSize,
+                format!("negative length {}", len),
+            ));
+        }
+        let v = read_exact_to_vec(&mut self.reader, len as usize).await?;
         Ok(unsafe { String::from_utf8_unchecked(v) })
     }
 
